@@ -752,7 +752,7 @@ def step_join(g: G, schemas: Dict[int, Sch], a: int, b: int):
             return False
         return True
 
-    jts = ["inner", "left", "left", "right", "full", "cross"]
+    jts = ["inner", "left", "left", "right", "full", "cross"] + list(g.cfg.get("extra_jointypes", []))
     for flag, jt in (("full_join", "full"), ("right_join", "right"), ("cross_join", "cross")):
         if flag in closed:
             jts = [j for j in jts if j != jt]
